@@ -427,8 +427,8 @@ def idle_behaviour(loop, scn, script):
         async def driver():
             while True:
                 obs.append(cur_id())
-                # nothing else can run and no inner run_until_complete is about to return: the environment's turn
-                if not loop._ready and not any(q.has_terminated() for q in env.nested):
+                # nothing else can run and the innermost run_until_complete is not about to return: the environment's turn
+                if not loop._ready and not (env.nested and env.nested[-1].has_terminated()):
                     if not script:
                         return
                     name, arg = script.pop(0)
@@ -451,21 +451,38 @@ def child_main():
     import signal
     logging.disable(logging.CRITICAL)
     jobs = json.load(sys.stdin)
-    signal.alarm(int(os.environ.get('VERIF_C18_CHILD_TIMEOUT', '600')))
     import plumpy
     plumpy.set_event_loop_policy()
     loop = asyncio.get_event_loop()
     out = []
+
+    class Hung(KeyboardInterrupt):      # asyncio tasks re-raise it instead of storing it, so it unwinds nested loop runs
+        pass
+
+    def on_alarm(*_a):
+        raise Hung('no progress for %s s' % per)
+    per = int(os.environ.get('VERIF_C18_BEHAVIOUR_TIMEOUT', '30'))
+    signal.signal(signal.SIGALRM, on_alarm)
+    poisoned = False
     for job in jobs:
+        if poisoned:                    # the loop was abandoned in the middle of nested runs: the parent starts a fresh interpreter
+            out.append({'skipped': True})
+            continue
+        signal.alarm(per)
         try:
             out.append(idle_behaviour(loop, job['scn'], job['script']))
+        except Hung as e:
+            out.append({'crash': 'the behaviour does not terminate on the implementation (%s)' % e})
+            poisoned = True
         except BaseException as e:      # noqa: the parent reports it as a divergence of that behaviour
             import traceback
             out.append({'crash': '%s: %s' % (type(e).__name__, e), 'tb': traceback.format_exc()[-1500:]})
+        finally:
+            signal.alarm(0)
     json.dump(out, sys.stdout)
 
 
-def run_children(jobs, procs=None, timeout=900):
+def run_children(jobs, procs=None, timeout=900, _depth=0):
     """jobs: [{'scn', 'script'}] -> results in the same order, computed by child interpreters in parallel."""
     from concurrent.futures import ThreadPoolExecutor
     from . import tlc
@@ -478,7 +495,6 @@ def run_children(jobs, procs=None, timeout=900):
     env = dict(os.environ)
     src = os.environ.get('VERIF_REPO_SRC', '/repo/src')
     env['PYTHONPATH'] = os.pathsep.join([src, verif] + ([env['PYTHONPATH']] if env.get('PYTHONPATH') else []))
-    env['VERIF_C18_CHILD_TIMEOUT'] = str(timeout)
 
     def one(chunk):
         p = subprocess.run([sys.executable, '-m', 'harness.scope_real'], input=json.dumps(chunk), cwd=verif, env=env,
@@ -491,7 +507,12 @@ def run_children(jobs, procs=None, timeout=900):
             res = list(ex.map(one, chunks))
     except subprocess.TimeoutExpired as e:
         raise tlc.MachineryError('child interpreter timed out') from e
-    return [r for chunk in res for r in chunk]
+    out = [r for chunk in res for r in chunk]
+    again = [i for i, r in enumerate(out) if r.get('skipped')]
+    if again and _depth < 20:
+        for i, r in zip(again, run_children([jobs[i] for i in again], procs, timeout, _depth + 1)):
+            out[i] = r
+    return out
 
 
 def by_process(log):
